@@ -102,6 +102,13 @@ def cache_histories():
             [r1, a1] + churn("alt") + [a1, r1] + churn("rand") + [r1, a1]]
 
 
+def complex_history():
+    """the entry and its COMPLEX twin (a complex tensor of the same shape built from the same arguments), same seed"""
+    r1, a1 = {"op": "CallInt", "e": "rand", "s": 1}, {"op": "CallInt", "e": "alt", "s": 1}
+    return [a1, r1, {"op": "Perturb"}, a1, {"op": "CallGen", "e": "alt", "g": "g1"}, {"op": "CallGen", "e": "alt", "g": "g2"},
+            {"op": "CallNone", "e": "alt"}, r1, a1]
+
+
 def execute(case):
     from .. import lib_seeded
     return {"id": case["id"], "events": lib_seeded.run_trace(case)}
@@ -122,16 +129,17 @@ def build_cases(chk, walks, thorough, only=None, obj_walks=None):
         isobj = "obj" in reg[ek] and obj_walks is not None
         hist = [("w%03d" % k, w) for k, w in enumerate(obj_walks if isobj else walks)]
         if slow and not thorough:
-            hist = hist[::3]
+            hist = hist[::4]
         for k in range(nrand if not slow else max(2, nrand // 3)):
             hist.append(("r%03d" % k, random_history(rng, rng.randint(6, 20 if thorough else 14), with_obj=isobj)))
         ncache = 0
         if obj_walks is not None:                 # (not in --replay of a single case)
-            for k, h in enumerate(cache_histories()):
+            for k, h in enumerate(cache_histories()[:1 if (slow and not thorough) else 2]):
                 hist.append(("c%03d" % k, h))
                 ncache += 1
+            hist.append(("k000", complex_history()))
         for hid, ops in hist:
-            plain = hid.startswith("c")       # the memo histories: ordinary in-range Python int seeds
+            plain = hid[0] in "ck"            # the memo / complex-twin histories: ordinary in-range Python int seeds
             oor = (not plain) and rng.random() < 0.1
             if isobj and reg[ek]["obj"]["clone"] is None:
                 # the class offers no get_params(): a "clone" cannot be built, re-fit the object instead (FitObj is
@@ -141,6 +149,8 @@ def build_cases(chk, walks, thorough, only=None, obj_walks=None):
             cases.append({"id": "C16/" + tr, "tr": tr, "entry": ek, "fn": reg[ek]["fn"], "opt": reg[ek]["opt"], "ops": ops,
                           "seeds": real_seeds(rng, oor), "genseed": GENSEED, "objseed": OBJSEED, "start": rng.randrange(0, 2**32),
                           "flavour": rng.randrange(0, 4),
+                          # what the "alt" entry of this trace is: the routine on the float32 / on a complex twin of the arguments
+                          "altkind": "complex128" if hid.startswith("k") else "float32" if plain else rng.choice(["float32", "complex128"]),
                           # the FORM in which the seed / the generator is handed over (see lib_seeded.SEEDFORMS / GENFORMS)
                           "prefit": rng.choice(["none", "none", "other", "failing"]),     # class entries: the object's past
                           "seedform": "int" if plain else rng.choice(["int"] * 5 + ["np.int64"]) if oor else
@@ -358,6 +368,16 @@ def run(chk, opts):
             ncall[e["entry"]] = ncall.get(e["entry"], 0) + 1
             nraise[e["entry"]] = nraise.get(e["entry"], 0) + (e["out"] != "ok")
     chk.notes["raised_calls"] = {k: v for k, v in nraise.items() if v}
+    # which entries refuse (raise on) the complex twin of their arguments -- for those the complex histories only check
+    # that the refusal reproduces and leaves the streams alone
+    kind = {c["tr"]: c.get("altkind") for c in cases}
+    calt, ralt = {}, {}
+    for e in events:
+        if e.get("e") == "alt" and kind.get(e.get("tr")) == "complex128":
+            calt[e["entry"]] = calt.get(e["entry"], 0) + 1
+            ralt[e["entry"]] = ralt.get(e["entry"], 0) + (e["out"] != "ok")
+    chk.notes["complex_twin_refused_by"] = sorted(k for k in calt if ralt[k] == calt[k])
+    chk.notes["complex_twin_accepted_by"] = len([k for k in calt if ralt[k] < calt[k]])
     for k, n in ncall.items():
         if nraise[k] * 2 > n:
             chk.machinery.append("vacuous: %d of %d calls of %s raised (%s)" % (nraise[k], n, k, next(
